@@ -6,6 +6,11 @@
 // sites, computed as a greatest fixpoint). The output is a Coq list of `fact` records checked against the hand-written
 // guard table of coq/Model/Lockset.v.
 //
+// Besides the field facts it emits (locals.go): the local variables captured by function literals that may run on another
+// goroutine, as locations with their own access facts (impl_local_facts, impl_captures), and the DATA behind the
+// synchronous-caller assumption (impl_sync_assumed / impl_sync_uses / impl_sync_sites) — the verdict on both is computed
+// in Coq (Model/LocksetData.v: local_guard_ok, sync_callers_ok), not here.
+//
 // TRUSTED: this analysis (see DESIGN.md 7). Known limits, all erring towards reporting FEWER held locks except where
 // noted: aliasing is by access path from one base variable; accesses through a local alias of a map/slice field are
 // not seen; deferred code is analysed at explicit exits (return, fall-off, explicit panic), not at panics raised by
@@ -99,6 +104,17 @@ type analyzer struct {
 	sliceParam map[types.Object]bool // slice-typed parameters of functions and literals (caller-owned memory)
 	escapePos  map[types.Object]token.Pos
 	syncOK     map[string]bool
+
+	// captured locals and the synchronous-caller data (locals.go)
+	shared     map[types.Object]*sharedVar
+	sharedList []*sharedVar
+	lfacts     map[localKey]*localFact
+	litConc    map[*ast.FuncLit]string
+	goneLits   map[*ast.FuncLit]bool
+	condLocker map[string]string
+	syncSites  map[token.Pos]*syncSite
+	// loop-header variables are per-iteration (go.mod says go >= 1.22)
+	perIterLoopVars bool
 	ifaceImpls map[*types.Func][]*types.Func
 
 	nSel, nLockOps, nCondWait, nSkippedPromoted int
@@ -169,6 +185,7 @@ func (a *analyzer) load(dir string) error {
 	if len(terrs) > 0 {
 		return fmt.Errorf("type errors:\n  %s", strings.Join(terrs, "\n  "))
 	}
+	a.perIterLoopVars = goModAtLeast(dir, 1, 22)
 	a.funcs = map[*types.Func]*funcInfo{}
 	for _, f := range a.files {
 		for _, d := range f.Decls {
@@ -288,6 +305,8 @@ func (a *analyzer) solve() int {
 
 func (a *analyzer) round() {
 	a.facts = map[factKey]*fact{}
+	a.lfacts = map[localKey]*localFact{}
+	a.syncSites = map[token.Pos]*syncSite{}
 	a.gostmts = map[token.Pos]*gostmt{}
 	a.newEntry = map[*types.Func]lockset{}
 	a.called = map[*types.Func]bool{}
@@ -314,4 +333,22 @@ func (a *analyzer) contribute(f *types.Func, ls lockset) {
 func (a *analyzer) contributeLit(l *ast.FuncLit, ls lockset) {
 	a.litCalled[l] = true
 	a.newLitEntry[l] = meetLS(a.newLitEntry[l], ls)
+}
+
+// goModAtLeast reads the `go` directive of dir/go.mod (absent or unreadable: false, the conservative answer).
+func goModAtLeast(dir string, major, minor int) bool {
+	b, err := os.ReadFile(filepath.Join(dir, "go.mod"))
+	if err != nil {
+		return false
+	}
+	for _, line := range strings.Split(string(b), "\n") {
+		f := strings.Fields(line)
+		if len(f) == 2 && f[0] == "go" {
+			var ma, mi int
+			if n, _ := fmt.Sscanf(f[1], "%d.%d", &ma, &mi); n == 2 {
+				return ma > major || (ma == major && mi >= minor)
+			}
+		}
+	}
+	return false
 }
